@@ -366,7 +366,18 @@ def r5(k: Kit) -> None:
     rep.rule('C08.R5', 'the WINDOW_ADJUST amount equals the growth of the '
              'local receive window (W\' = W + adjust) and the store follows '
              'the send on every path')
-    fi = k.func(CH + '_deliver_data')
+    cands = []
+    for m in k.idx.cls('channel.SSHChannel').methods.values():
+        if any(is_call(c, 'send_packet', 'self') and c.args and
+               dotted(c.args[0]) == 'MSG_CHANNEL_WINDOW_ADJUST'
+               for c in walk_shallow(m.node)):
+            cands.append(m)
+    if len(cands) != 1:
+        rep.error('C08.R5', 'WINDOW_ADJUST owner',
+                  f'{len(cands)} SSHChannel methods send WINDOW_ADJUST; '
+                  'expected exactly one')
+        return
+    fi = cands[0]
     g = k.cfg(fi)
     rd = k.rd(fi)
     sends = [(n, c) for n, c in k.calls_named(fi, 'send_packet', 'self')
@@ -424,8 +435,59 @@ def r5(k: Kit) -> None:
                   'the initial window',
                   'WINDOW_ADJUST not conditioned on the remaining window',
                   k.loc(fi, node))
-    # replenishment must be reachable from both delivery paths: it lives in
-    # _deliver_data which both the direct and the flush path call (R2)
+    # every hand-over of data to the session evaluates the replenishment
+    # trigger: in the delivering function itself, or at every call site of it
+    F = fi
+
+    def trig(n: Node) -> bool:
+        return n.kind == 'atom' and isinstance(n.ast, ast.Compare) and \
+            'self._recv_window' in names_read(n.ast) and \
+            'self._init_recv_window' in names_read(n.ast)
+
+    def covered(fn, site: Node) -> bool:
+        gg = k.cfg(fn)
+        X = set()
+        if fn.qual == F.qual:
+            X |= {n.id for n in gg.nodes if trig(n)}
+        for n in gg.nodes:
+            for c in gg.calls_at(n):
+                if is_call(c, F.name, 'self') and fn.qual != F.qual:
+                    X.add(n.id)
+        if site.id in X:
+            return True
+        before = gg.path(gg.entry, site.id, blocked_nodes=X, follow_exc=False)
+        after = gg.path(site.id, gg.exit, blocked_nodes=X, follow_exc=False)
+        return before is None or after is None
+    deliver_sites = 0
+    for fn in k.idx.iter_funcs(['channel']):
+        if fn.cls is None or not k.idx.is_subclass(fn.cls, 'SSHChannel'):
+            continue
+        for node, c in k.call_nodes(fn, lambda c: is_call(
+                c, 'data_received') and (dotted(c.func.value) or '').endswith(
+                    '_session')):
+            deliver_sites += 1
+            if covered(fn, node):
+                rep.ok('C08.R5', key(fn, 'delivery replenishes'),
+                       'delivery evaluates the replenishment trigger',
+                       k.loc(fn, node))
+                continue
+            # otherwise every call site of fn must be covered
+            callers = [(cf, cc) for cf, cc in k.idx.callers_of(
+                fn.name, ['channel']) if cf.qual != fn.qual]
+            bad = []
+            for cf, cc in callers:
+                cn = k.cfg(cf).node_for(cc)
+                if cn is None or not covered(cf, cn):
+                    bad.append(cf)
+            rep.check(bool(callers) and not bad, 'C08.R5',
+                      key(fn, 'delivery replenishes'),
+                      'every caller of the delivering function replenishes',
+                      'data is handed to the session on a path that never '
+                      'evaluates the window replenishment (via ' +
+                      ', '.join(sorted({b.qual for b in bad})) + '): after a '
+                      'pause that exhausts the window no WINDOW_ADJUST is '
+                      'ever sent', k.loc(fn, node))
+    rep.floor('C08.R5', 'session delivery sites', deliver_sites, 1)
 
 
 def run(idx, rep, tier):
